@@ -557,7 +557,7 @@ fn dense_case(out: &mut Out, r: &mut Rng, big: bool) {
     // dump ranges: around the bottom, the middle, the top, the far rows; sometimes the whole span
     let mut ranges: Vec<(u64, u64)> = Vec::new();
     let span = hi - lo + 1;
-    if span <= 6000 && r.chance(1, 2) {
+    if span <= 2500 && r.chance(1, 2) {
         ranges.push((lo.saturating_sub(3), (span + 6).min(MAXU - lo.saturating_sub(3))));
     } else {
         ranges.push((lo.saturating_sub(8), 48.min(MAXU - lo.saturating_sub(8))));
@@ -604,7 +604,7 @@ fn known_cases(out: &mut Out) -> Vec<(String, bool)> {
 fn main() {
     let args = parse_args();
     quiet_panics();
-    let mut out = Out::new(&args, "From Verif Require Import ColumnStore.", "ColumnStore.case", "ColumnStore.check_case", if args.thorough { 24 } else { 40 });
+    let mut out = Out::new(&args, "From Verif Require Import ColumnStore.", "ColumnStore.case", "ColumnStore.check_case", if args.thorough { 21 } else { 26 });
     out.rule = "small: 1-14 single operations (set of every value kind incl. Null and an untyped variant, remove, clear_row) \
                 over rows 0-5 (+ far rows) and keys 0-2; dense: one column filled with 1023-4096 rows at a stride on either \
                 side of the type's break-even fill, base 0 / small / 1.1M / just below usize::MAX, followed by 3-40 \
@@ -623,7 +623,7 @@ fn main() {
             detail: if still { format!("panics (overflow checks on): {}", what) } else { format!("no longer panics: {}", what) },
         });
     }
-    let (nsmall, ndense) = if args.thorough { (12000, 700) } else { (1500, 60) };
+    let (nsmall, ndense) = if args.thorough { (9000, 450) } else { (900, 36) };
     // interleave so that shards cost about the same
     let per = (nsmall / ndense).max(1);
     let mut c = 0u64;
